@@ -144,7 +144,7 @@ def run(R):
     if ap[0].id in npf.cfg.reachable(removed_edges={(dt[0].id, not lab_digest)}):
         R.fail('C02.MPT.1', inst, npf.qual, ap[0].ast, 'the parameters digest component is included in the signed portion', site(npf, ap[0].ast))
     elif lp[0].id in reach_from_succ(npf.cfg, dt[0], not lab_digest, removed_nodes={ap[0].id}, follow_exc=False) or \
-            any(isinstance(x, (ast.Break, ast.Continue)) for x in ast.walk(lp[0].ast)):
+            any(isinstance(x, ast.Break) for x in ast.walk(lp[0].ast)):
         R.fail('C02.MPT.1', inst, npf.qual, lp[0].ast, 'some name component other than the digest is left out of the signed portion', site(npf, lp[0].ast))
     else:
         R.ok('C02.MPT.1', inst, site(npf, ap[0].ast))
@@ -252,6 +252,26 @@ def run(R):
             good = len(ups) == 1
         elif not loops and len(joins) == 1 and (ast.unparse(joins[0].args[0]) == listexpr or full_text(cx, joins[0].args[0]) == listexpr):
             good = True
+        if not good and not loops and not joins:
+            # the feeding loop moved into a new helper that takes the list (and is used in expression position, so it was not expanded)
+            from .common import new_callees
+            from ..inline import _resolve
+            for c_ in [x for n_ in cx.cfg.nodes for x in n_.calls()]:
+                pos = [i for i, a_ in enumerate(c_.args) if ast.unparse(a_) == listexpr or full_text(cx, a_) == listexpr]
+                try:
+                    tq = _resolve(P, cx.f, c_)
+                except Exception:
+                    tq = None
+                if not pos or not isinstance(tq, str) or tq not in {h.qual for h in new_callees(R, cx)}:
+                    continue
+                hx = ctx(R, tq)
+                params = [a_.arg for a_ in hx.f.node.args.args]
+                if pos[0] >= len(params):
+                    continue
+                hl = [n_ for n_ in hx.cfg.nodes if n_.kind == 'for']
+                if len(hl) == 1 and ast.unparse(hl[0].ast.iter) == params[pos[0]] and not any(isinstance(x, (ast.Break, ast.Continue, ast.If)) for x in ast.walk(hl[0].ast)):
+                    ups = [u for u in ast.walk(hl[0].ast) if isinstance(u, ast.Call) and callee_attr(u) == 'update' and ast.unparse(u.args[0]) == ast.unparse(hl[0].ast.target)]
+                    good = len(ups) == 1
         if good:
             n_ok += 1
             R.ok('C02.LOP.1', inst, site(cx, cx.f.node))
